@@ -21,6 +21,8 @@ import (
 	metav1 "k8s.io/apimachinery/pkg/apis/meta/v1"
 	"sigs.k8s.io/controller-runtime/pkg/client"
 	gatewayv1 "sigs.k8s.io/gateway-api/apis/v1"
+	"sigs.k8s.io/gateway-api/apis/v1alpha2"
+	"sigs.k8s.io/gateway-api/apis/v1alpha3"
 	"sigs.k8s.io/gateway-api/apis/v1beta1"
 
 	"github.com/nginx/nginx-gateway-fabric/internal/framework/helpers"
@@ -137,7 +139,23 @@ type vsNamespace struct {
 	Labels [][2]string
 }
 
+type vsBTP struct {
+	NS, Name  string
+	TS        int64
+	Targets   []string
+	Host      string
+	CA        *string
+	WellKnown bool
+}
+
+type vsConfigMap struct {
+	NS, Name string
+	OK       bool
+}
+
 type vsCluster struct {
+	BTPs       []vsBTP
+	ConfigMaps []vsConfigMap
 	Classes    []vsClass
 	Gateways   []vsGateway
 	Routes     []vsRoute
@@ -292,7 +310,14 @@ func (c *vsCluster) Coq() string {
 	for _, n := range c.Namespaces {
 		nss = append(nss, vu.App("Build_nsobj", vu.Str(n.Name), vsPairs(n.Labels)))
 	}
-	return vu.App("Build_cluster", vu.List(classes), vu.List(gws), vu.List(routes), vu.List(svcs), vu.List(secs), vu.List(grants), vu.List(nss))
+	var btps, cms []string
+	for _, b := range c.BTPs {
+		btps = append(btps, vu.App("Build_btp", vu.Str(b.NS), vu.Str(b.Name), vu.Z(b.TS), vu.StrList(b.Targets), vu.Str(b.Host), vsOptStr(b.CA), vu.Bool(b.WellKnown)))
+	}
+	for _, m := range c.ConfigMaps {
+		cms = append(cms, vu.App("Build_cmap", vu.Str(m.NS), vu.Str(m.Name), vu.Bool(m.OK)))
+	}
+	return vu.App("Build_cluster", vu.List(classes), vu.List(gws), vu.List(routes), vu.List(svcs), vu.List(secs), vu.List(grants), vu.List(nss), vu.List(btps), vu.List(cms))
 }
 
 func (q vsRequest) Coq() string {
@@ -302,12 +327,31 @@ func (q vsRequest) Coq() string {
 
 // ------------------------------------------------------------------------------------------ typed objects
 
-var vsKeyPair = func() [2][]byte {
+// vsKeyPairs: distinct key pairs, so that each Secret has its own bytes.
+var vsKeyPairs = func() [][2][]byte {
+	var out [][2][]byte
+	for i := 0; i < 6; i++ {
+		out = append(out, vsNewKeyPair(int64(i+2)))
+	}
+	return out
+}()
+
+func vsSecretPair(ns, name string) [2][]byte {
+	h := 0
+	for _, c := range ns + "/" + name {
+		h = (h*31 + int(c)) % 1000003
+	}
+	return vsKeyPairs[h%len(vsKeyPairs)]
+}
+
+var vsKeyPair = vsNewKeyPair(1)
+
+func vsNewKeyPair(serial int64) [2][]byte {
 	key, err := ecdsa.GenerateKey(elliptic.P256(), rand.Reader)
 	if err != nil {
 		panic(err)
 	}
-	tmpl := x509.Certificate{SerialNumber: big.NewInt(1), Subject: pkix.Name{CommonName: "verif"},
+	tmpl := x509.Certificate{SerialNumber: big.NewInt(serial), Subject: pkix.Name{CommonName: "verif" + strconv.FormatInt(serial, 10)},
 		NotBefore: time.Unix(1700000000, 0), NotAfter: time.Unix(4000000000, 0)}
 	der, err := x509.CreateCertificate(rand.Reader, &tmpl, &tmpl, &key.PublicKey, key)
 	if err != nil {
@@ -319,7 +363,7 @@ var vsKeyPair = func() [2][]byte {
 	}
 	return [2][]byte{pem.EncodeToMemory(&pem.Block{Type: "CERTIFICATE", Bytes: der}),
 		pem.EncodeToMemory(&pem.Block{Type: "EC PRIVATE KEY", Bytes: kb})}
-}()
+}
 
 func vsTime(ts int64) metav1.Time { return metav1.NewTime(time.Unix(1700000000+ts, 0)) }
 
@@ -575,8 +619,9 @@ func (s vsService) obj() client.Object {
 }
 
 func (s vsSecret) obj() client.Object {
+	kp := vsSecretPair(s.NS, s.Name)
 	sec := &apiv1.Secret{ObjectMeta: metav1.ObjectMeta{Namespace: s.NS, Name: s.Name}, Type: apiv1.SecretTypeTLS,
-		Data: map[string][]byte{apiv1.TLSCertKey: vsKeyPair[0], apiv1.TLSPrivateKeyKey: vsKeyPair[1]}}
+		Data: map[string][]byte{apiv1.TLSCertKey: kp[0], apiv1.TLSPrivateKeyKey: kp[1]}}
 	if !s.OK {
 		sec.Data[apiv1.TLSCertKey] = []byte("not a certificate")
 	}
@@ -596,6 +641,32 @@ func (g vsGrant) obj() client.Object {
 		rg.Spec.To = append(rg.Spec.To, to)
 	}
 	return rg
+}
+
+func (b vsBTP) obj() client.Object {
+	p := &v1alpha3.BackendTLSPolicy{ObjectMeta: metav1.ObjectMeta{Namespace: b.NS, Name: b.Name, CreationTimestamp: vsTime(b.TS), Generation: 1},
+		Spec: v1alpha3.BackendTLSPolicySpec{Validation: v1alpha3.BackendTLSPolicyValidation{Hostname: gatewayv1.PreciseHostname(b.Host)}}}
+	for _, t := range b.Targets {
+		p.Spec.TargetRefs = append(p.Spec.TargetRefs, v1alpha2.LocalPolicyTargetReferenceWithSectionName{
+			LocalPolicyTargetReference: v1alpha2.LocalPolicyTargetReference{Group: "", Kind: "Service", Name: gatewayv1.ObjectName(t)}})
+	}
+	if b.CA != nil {
+		p.Spec.Validation.CACertificateRefs = []gatewayv1.LocalObjectReference{{Group: "", Kind: "ConfigMap", Name: gatewayv1.ObjectName(*b.CA)}}
+	}
+	if b.WellKnown {
+		p.Spec.Validation.WellKnownCACertificates = helpers.GetPointer(v1alpha3.WellKnownCACertificatesSystem)
+	}
+	return p
+}
+
+func (m vsConfigMap) obj() client.Object {
+	cm := &apiv1.ConfigMap{ObjectMeta: metav1.ObjectMeta{Namespace: m.NS, Name: m.Name}, Data: map[string]string{}}
+	if m.OK {
+		cm.Data["ca.crt"] = string(vsSecretPair(m.NS, "cm-"+m.Name)[0])
+	} else {
+		cm.Data["other"] = "x"
+	}
+	return cm
 }
 
 func (n vsNamespace) obj() client.Object {
@@ -621,6 +692,12 @@ func (c *vsCluster) Objects() []client.Object {
 	}
 	for _, g := range c.Grants {
 		out = append(out, g.obj())
+	}
+	for _, m := range c.ConfigMaps {
+		out = append(out, m.obj())
+	}
+	for _, b := range c.BTPs {
+		out = append(out, b.obj())
 	}
 	for _, g := range c.Gateways {
 		out = append(out, g.obj())
@@ -851,6 +928,29 @@ func vsGen(r *vu.Rng, size int) *vsCluster {
 			g.From = append(g.From, vsGrantFrom{Group: "gateway.networking.k8s.io", Kind: "HTTPRoute", NS: vsPick(r, vsNSPool)})
 		}
 		c.Grants = append(c.Grants, g)
+	}
+	// backend TLS policies (one state in three)
+	if r.Chance(1, 3) {
+		for _, ns := range vsNSPool[:2] {
+			c.ConfigMaps = append(c.ConfigMaps, vsConfigMap{NS: ns, Name: "ca", OK: r.Chance(5, 6)})
+		}
+		nb := 1 + r.Intn(3)
+		for i := 0; i < nb; i++ {
+			b := vsBTP{NS: vsPick(r, vsNSPool[:2]), Name: "btp" + strconv.Itoa(i), TS: int64(r.Intn(3)),
+				Targets: []string{vsPick(r, vsSvcPool)}, Host: []string{"backend.example.com", "other.example.com"}[r.Intn(2)]}
+			if r.Chance(1, 4) {
+				b.Targets = append(b.Targets, vsPick(r, vsSvcPool))
+			}
+			switch r.Intn(5) {
+			case 0:
+				b.WellKnown = true
+			case 1:
+				b.CA = vsPtr("missing-ca")
+			default:
+				b.CA = vsPtr("ca")
+			}
+			c.BTPs = append(c.BTPs, b)
+		}
 	}
 	// gateways
 	ngw := 1
